@@ -253,6 +253,17 @@ pub fn run(ctx: &Ctx, rec: &mut Recorder) -> Result<(), String> {
             }
         }
     }
+    // text strings whose UTF-16BE form contains a byte that is special inside a literal string
+    // ( ( ) \ CR LF ) in the high or the low half of a code unit, or in a surrogate
+    if ctx.shard == 0 {
+        for b in [0x28u32, 0x29, 0x5C, 0x0D, 0x0A] {
+            for cp in [0x0100 + b, 0x0400 + b, (b << 8) | 0x41, (b << 8) | b, 0x1F500 + b, 0x10000 + (b << 10) + 0x28] {
+                if let Some(c) = char::from_u32(cp) {
+                    cases.push((format!("string-utf16-special-byte-{b:02x}-{cp:x}"), Object::String(format!("a{c}z{c}"))));
+                }
+            }
+        }
+    }
     let n = ctx.qt(30_000u64, 1_500_000u64);
     for c in 0..n {
         if !ctx.mine(c) {
